@@ -38,7 +38,8 @@ fn bytes(rng: &mut Rng, big: bool) -> Vec<u8> {
     let n = match rng.below(8) {
         0 => 0,
         1 => 1,
-        2 if big => rng.range(100_000, 1_048_576) as usize,
+        // (around and above 1 MiB: a message size a transport limit would be set at)
+        2 if big => (if rng.chance(1, 2) { rng.range(100_000, 1_048_576) } else { rng.range(1_048_000, 2_200_000) }) as usize,
         2 => rng.range(1000, 20_000) as usize,
         _ => rng.range(2, 64) as usize,
     };
